@@ -610,6 +610,10 @@ func (p *parser) parsePostfixExpression() ast.Expression {
 }
 
 func (p *parser) parseUnaryExpression() ast.Expression {
+	if p.tooDeep() {
+		return &ast.BadExpression{From: p.idx, To: p.idx}
+	}
+	defer p.leaveNesting()
 	switch p.token {
 	case token.PLUS, token.MINUS, token.NOT, token.BITWISE_NOT:
 		fallthrough
@@ -927,6 +931,10 @@ func (p *parser) parseConditionalExpression() ast.Expression {
 }
 
 func (p *parser) parseAssignmentExpression() ast.Expression {
+	if p.tooDeep() {
+		return &ast.BadExpression{From: p.idx, To: p.idx}
+	}
+	defer p.leaveNesting()
 	left := p.parseConditionalExpression()
 	var operator token.Token
 	switch p.token {
